@@ -161,6 +161,15 @@ def run(ctx):
     ctx.coverage["correspondences"] = {"object backend vs independent float64 geometry (ranges, signs, predicates)": {"ok": not ctx.failures}}
 
 
+_run_without_compiled = run
+
+
+def run(ctx):
+    _run_without_compiled(ctx)
+    from tools import nbrows
+    nbrows.check(ctx, ['phi', 'theta', 'eta', 'rho', 'rho2', 'mag', 'mag2', 'costheta', 'cottheta', 't', 't2', 'tau', 'tau2', 'beta', 'gamma', 'rapidity', 'deltaphi', 'deltaangle', 'deltaeta', 'deltaR', 'deltaR2', 'deltaRapidityPhi', 'deltaRapidityPhi2', 'is_timelike', 'is_spacelike', 'is_lightlike', 'is_timelike_tol', 'is_spacelike_tol', 'is_parallel', 'is_antiparallel', 'is_perpendicular', 'is_parallel_tol'], 'the ranged quantities and predicates')
+
+
 def replay(rec):
     import vector
     f = rec.get("failure") or {}
